@@ -361,6 +361,7 @@ class Inliner:
         self.inlined: list[str] = []
         self.skipped: list[tuple[str, str]] = []
         self.inlined_calls: set[int] = set()  # id() of the ORIGINAL call nodes that were replaced
+        self.transparent = TRANSPARENT_DECORATORS
 
     # -- eligibility
     def _callee(self, fctx: FuncInfo, call: ast.Call, stack: tuple, generator: bool = False, g: Optional[FuncInfo] = None, ctxmgr: bool = False) -> Optional[FuncInfo]:
@@ -381,7 +382,7 @@ class Inliner:
             return None
         if isinstance(g.node, ast.AsyncFunctionDef) or g.kind in ("getter", "setter") or g.outer is not None:
             return None
-        if any(d.split("(")[0] not in TRANSPARENT_DECORATORS and not (ctxmgr and d in CONTEXTMANAGER) for d in g.decorators):
+        if any(d.split("(")[0] not in self.transparent and not (ctxmgr and d in CONTEXTMANAGER) for d in g.decorators):
             return None
         if ctxmgr != any(d in CONTEXTMANAGER for d in g.decorators):
             return None
@@ -1110,7 +1111,7 @@ def _swap_node(old: ast.AST, new: Optional[ast.AST]) -> None:
                     return
 
 
-def normalise_repo(repo, keep=frozenset(), policy: Callable[[FuncInfo], bool] = default_policy, depth: int = 3) -> dict:
+def normalise_repo(repo, keep=frozenset(), policy: Callable[[FuncInfo], bool] = default_policy, depth: int = 3, compiled_opaque: bool = False) -> dict:
     """Inline private helpers into their callers everywhere, in place, and drop helpers that were
     absorbed completely (every mention of their name in the package was an inlined call).
 
@@ -1125,6 +1126,9 @@ def normalise_repo(repo, keep=frozenset(), policy: Callable[[FuncInfo], bool] = 
     if not hnames:
         return {"inlined": {}, "absorbed": [], "skipped": []}
     inl = Inliner(R0, policy, depth, keep)
+    if compiled_opaque:
+        # the property is about what runs INSIDE numba-compiled code: compiled helpers stay functions of their own
+        inl.transparent = tuple(d for d in TRANSPARENT_DECORATORS if "jit" not in d)
     todo = []
     for f in list(repo.funcs.values()):
         if f.outer is not None:
